@@ -918,8 +918,36 @@ def fresh_id(r, present):
     return r.choice(c)
 
 
-def local_variants(r, v, sub=False, setlike=False):
-    """value-changing variants of a spec value: list of (new value, description)"""
+_HOLDS_INTS = {}
+
+
+def holds_ints(cname, attr):
+    k = (cname, attr)
+    if k not in _HOLDS_INTS:
+        _HOLDS_INTS[k] = _holds_ints(cname, attr)
+    return _HOLDS_INTS[k]
+
+
+def _holds_ints(cname, attr):
+    """may the collection-valued parameter [attr] of class [cname] hold ints (ids)?  Decides what can be added to an
+    EMPTY collection (from the constructor's type annotation; unannotated: no)"""
+    import typing
+    cls = CLASSES.get(cname)
+    if cls is None or cname in EXTRA_ATTRS and attr in EXTRA_ATTRS[cname]:
+        return False
+    try:
+        t = typing.get_type_hints(cls.__init__).get(attr)
+    except Exception:  # noqa
+        return False
+
+    def has_int(t):
+        return t is int or any(has_int(a) for a in typing.get_args(t))
+    return t is not None and has_int(t)
+
+
+def local_variants(r, v, sub=False, setlike=False, ints=True):
+    """value-changing variants of a spec value: list of (new value, description); [ints]: an empty collection may
+    receive an int"""
     out = []
     if v is None:
         return out
@@ -955,7 +983,7 @@ def local_variants(r, v, sub=False, setlike=False):
         el = v[key]
         if sub:
             return out
-        if all(isinstance(x, int) for x in el):
+        if all(isinstance(x, int) for x in el) and (el or ints):
             out.append(({key: el + [fresh_id(r, el)]}, "add id"))
             if el:
                 i = r.randrange(len(el))
@@ -975,7 +1003,7 @@ def local_variants(r, v, sub=False, setlike=False):
         el = v["l"]
         if el:
             i = r.randrange(len(el))
-            for nv, d in local_variants(r, el[i], sub)[:2]:
+            for nv, d in local_variants(r, el[i], sub, ints=ints)[:2]:
                 out.append(({"l": el[:i] + [nv] + el[i + 1:]}, f"[{i}].{d}"))
             if not sub:
                 out.append(({"l": el[:-1]}, "drop last"))
@@ -986,7 +1014,7 @@ def local_variants(r, v, sub=False, setlike=False):
         el = v["d"]
         if el:
             i = r.randrange(len(el))
-            for nv, d in local_variants(r, el[i][1], sub)[:2]:
+            for nv, d in local_variants(r, el[i][1], sub, ints=ints)[:2]:
                 out.append(({"d": el[:i] + [[el[i][0], nv]] + el[i + 1:]}, f"[{el[i][0]}].{d}"))
             if not sub:
                 out.append(({"d": el[:-1]}, "drop key"))
@@ -995,7 +1023,7 @@ def local_variants(r, v, sub=False, setlike=False):
         kw = v["kw"]
         if kw:
             for a in r.sample(sorted(kw), min(2, len(kw))):
-                for nv, d in local_variants(r, kw[a], sub)[:1]:
+                for nv, d in local_variants(r, kw[a], sub, ints=holds_ints(v["c"], a))[:1]:
                     out.append(({"c": v["c"], "kw": dict(kw, **{a: nv})}, f"{v['c']}.{a}.{d}"))
         return out
     return out
@@ -1014,9 +1042,10 @@ def perturbations(r, spec, attr, n_donor=2):
     cname, kw = spec["c"], spec["kw"]
     out = []
     if attr in kw:
-        for nv, d in local_variants(r, kw[attr]):
+        ints = holds_ints(cname, attr)
+        for nv, d in local_variants(r, kw[attr], ints=ints):
             out.append((dict(spec, kw=dict(kw, **{attr: nv})), "local:" + d))
-        for nv, d in local_variants(r, kw[attr], sub=True)[:2]:
+        for nv, d in local_variants(r, kw[attr], sub=True, ints=ints)[:2]:
             out.append((dict(spec, kw=dict(kw, **{attr: nv})), "sub:" + d))
     for _ in range(n_donor):
         for _try in range(6):
